@@ -1,7 +1,7 @@
 (* C04 -- an accepted header never depends on or consumes the bytes that follow it.
    Statements only; proofs in Proofs/V1Final.v (v1), Proofs/AutoProps.v (v2, auto). *)
 From PPP Require Import Base.Bytes Std.Utf8 Std.Text Model.V1 Model.V2 Model.Auto
-  Proofs.BytesFacts Proofs.V1Text Proofs.V1Final Proofs.V1Props Proofs.AutoProps Proofs.Extra Proofs.Consume.
+  Proofs.BytesFacts Proofs.V1Text Proofs.V1Final Proofs.V1Props Proofs.AutoProps Proofs.Extra Proofs.Consume Proofs.Senders Proofs.StreamPipe.
 From Coq Require Import List ZArith.
 Import ListNotations.
 Local Open Scope N_scope.
@@ -39,6 +39,22 @@ Theorem C04_pipeline : forall fs rest k,
   drain (S (length fs) + k) (concat (map frame_bytes fs) ++ rest) = (fs, rest).
 Proof. exact drain_sequence_fuel. Qed.
 
+(* the premise is met by everything the crate's own encoders emit (C07_parse, C08_round): any pipeline of
+   built v2 headers and formatted v1 lines, in any order and number, is received frame by frame as sent *)
+Theorem C04_senders_pipeline : forall ms rest k,
+  forallb wf_sent ms = true -> wf_bytes (concat (map sent_bytes ms) ++ rest) = true -> frame_of (pa rest) = None ->
+  drain (S (length ms) + k) (concat (map sent_bytes ms) ++ rest) = (map sent_frame ms, rest).
+Proof. exact senders_pipeline. Qed.
+
+(* framing is unambiguous: a byte stream has at most one reading as headers followed by a non-header
+   remainder, so "exactly the length of the reported header" leaves a receiver no choice *)
+Theorem C04_framing_unique : forall fs1 rest1 fs2 rest2,
+  Forall self_parsing fs1 -> stuck rest1 -> Forall self_parsing fs2 -> stuck rest2 ->
+  concat (map frame_bytes fs1) ++ rest1 = concat (map frame_bytes fs2) ++ rest2 ->
+  wf_bytes (concat (map frame_bytes fs1) ++ rest1) = true ->
+  fs1 = fs2 /\ rest1 = rest2.
+Proof. exact framing_unique. Qed.
+
 Example C04_pipeline_example :
   let v1 := [80;82;79;88;89;32;85;78;75;78;79;87;78;13;10] in
   let v2 := SIG ++ [33; 17; 0; 12; 1;2;3;4; 5;6;7;8; 0;80; 1;187] in
@@ -54,3 +70,5 @@ Print Assumptions C04_v2.
 Print Assumptions C04_auto.
 Print Assumptions C04_accepts_frame.
 Print Assumptions C04_pipeline.
+Print Assumptions C04_senders_pipeline.
+Print Assumptions C04_framing_unique.
